@@ -600,8 +600,12 @@ async def _slots_back(repo, N, obs, phase, gate):
     obs['problems'].append((f'after {phase}: {repo._slots.qsize()} of {N} connection slots available', 'slots'))
 
 
+_WD_COUNTER = itertools.count()
+
+
 def check(case, ctx, rep: Report, chooser_factory, tag):
-    wd = ctx.scratch / f'c09-{tag}'
+    # a fresh directory every time: straggler threads of an earlier failed restore may still create files under the old one
+    wd = ctx.scratch / f'c09-{tag}-{next(_WD_COUNTER)}'
     try:
         obs = run_case(case, wd, chooser_factory)
     finally:
@@ -864,6 +868,9 @@ def _run(ctx, n_random, n_forced, n_perm, rep):
     validate_slot_traces(rep)
     validate_pipe_traces(rep)
     validate_fin_traces(rep)
+    # process level: a restore that fails must END (no loader thread may wait for a closed event loop)
+    from harness import cli_hist
+    cli_hist.termination_probe(ctx, rep, {'restore'})
 
 
 def run(ctx) -> Report:
@@ -879,6 +886,10 @@ def search(ctx, broken) -> Report:
 
 
 def replay(ctx, obj):
+    from harness import cli_hist
+    rc = cli_hist.replay_cli(ctx, obj, ('hang', 'silent_corruption'))
+    if rc is not None:
+        return rc
     rep = Report(rule=RULE)
     case = obj.get('replay') or {}
     if 'files' not in case:
